@@ -551,6 +551,12 @@ func main() {
 	for k, v := range caseHits {
 		r.HistAdd("select_case_hits", k, v)
 	}
+	racePass(r, scratch, jobsScenarios(func() (out []Scenario) {
+		for _, j := range jobs {
+			out = append(out, j.sc)
+		}
+		return
+	}()))
 	distinct := int64(0)
 	for _, v := range outcomesPer {
 		distinct += int64(v)
@@ -571,7 +577,92 @@ func main() {
 		Exhaustive: allExhaustive,
 	}, []string{"threads share memory only through channels (the rewriter refuses anything else; data races are outside what a cooperative scheduler sees)",
 		"map iteration order in recycleBuffers is fixed (sorted) rather than explored",
-		"select/rendezvous nondeterminism is explored as deviations from source order"})
+		"select/rendezvous nondeterminism is explored as deviations from source order",
+		"the free-running -race pass (counter free_running_race_pass_executions) samples schedules; it is complementary and not counted in states/transitions"})
+}
+
+// jobsScenarios dedupes the scheduled scenarios (several bounds share one scenario).
+func jobsScenarios(in []Scenario) (out []Scenario) {
+	seen := map[string]bool{}
+	for _, sc := range in {
+		k := fmt.Sprintf("%s/%d/%d/%d", sc.Name, sc.Chunks, sc.CSize, sc.Conc)
+		if !seen[k] {
+			seen[k] = true
+			out = append(out, sc)
+		}
+	}
+	return out
+}
+
+var raceFrame = regexp.MustCompile(`(?m)^  ([A-Za-z0-9_./*()]+)\(\)\n\s+\S*/lib/rac/([a-z_]+\.go):\d+`)
+
+// racePass runs the same history bodies free-running on the unmodified lib/rac built
+// with -race (GOMAXPROCS 2 and 16). Complementary to the scheduled exploration and NOT
+// exhaustive: it samples schedules; what it adds is visibility of unsynchronised accesses.
+func racePass(r *ev.Run, scratch string, scs []Scenario) {
+	bin := filepath.Join(scratch, "c14freerun")
+	cmd := exec.Command("go", "build", "-race", "-o", bin, "./checks/c14/freerun")
+	cmd.Dir = ev.Root
+	if o, err := cmd.CombinedOutput(); err != nil {
+		ev.Fatal("building the free-running -race pass failed: %v\n%s", err, o)
+	}
+	reps := 150
+	if r.Thorough() {
+		reps = 1500
+	}
+	in, _ := json.Marshal(map[string]any{"scenarios": scs, "reps": reps})
+	type res struct {
+		Executions int64    `json:"executions"`
+		Mismatches []string `json:"mismatches"`
+		Hangs      []string `json:"hangs"`
+	}
+	procs := []string{"2", "16", "4"}
+	var mu sync.Mutex
+	ev.ParFor(len(procs), func(_, i int) {
+		logPrefix := filepath.Join(scratch, "race."+procs[i])
+		c := exec.Command(bin)
+		c.Env = append(os.Environ(), "GOMAXPROCS="+procs[i], "GORACE=halt_on_error=1 exitcode=66 log_path="+logPrefix)
+		c.Stdin = bytes.NewReader(in)
+		var stderr bytes.Buffer
+		c.Stderr = &stderr
+		out, err := c.Output()
+		mu.Lock()
+		defer mu.Unlock()
+		if err != nil {
+			logs, _ := filepath.Glob(logPrefix + ".*")
+			var report []byte
+			for _, l := range logs {
+				b, _ := os.ReadFile(l)
+				report = append(report, b...)
+			}
+			if bytes.Contains(report, []byte("DATA RACE")) {
+				var fr []string
+				for _, m := range raceFrame.FindAllSubmatch(report, 4) {
+					fr = append(fr, string(m[1]))
+				}
+				sig := "concurrent:data-race:" + strings.Join(fr, "|")
+				if len(report) > 6000 {
+					report = report[:6000]
+				}
+				r.Violation(sig, "free-running -race pass (GOMAXPROCS="+procs[i]+"): the race detector reports unsynchronised access in lib/rac",
+					map[string]any{"gomaxprocs": procs[i], "report": string(report), "how": "go build -race ./checks/c14/freerun; feed the scenarios on stdin"})
+				return
+			}
+			ev.Fatal("free-running pass failed (GOMAXPROCS=%s): %v\n%s\n%s", procs[i], err, stderr.String(), report)
+		}
+		var o res
+		lines := bytes.Split(bytes.TrimSpace(out), []byte("\n"))
+		if err := json.Unmarshal(lines[len(lines)-1], &o); err != nil {
+			ev.Fatal("free-running pass output: %v\n%s", err, out)
+		}
+		r.Add("free_running_race_pass_executions", o.Executions)
+		for _, m := range o.Mismatches {
+			r.Violation("concurrent:free-running:wrong-result", "free-running reader disagrees with the model: "+m, map[string]any{"gomaxprocs": procs[i], "detail": m})
+		}
+		for _, h := range o.Hangs {
+			r.Violation("concurrent:free-running:hang", "free-running reader did not return within 120 s: "+h, map[string]any{"gomaxprocs": procs[i], "detail": h})
+		}
+	})
 }
 
 var chNum = regexp.MustCompile(`ch[0-9]+`)
